@@ -10,6 +10,9 @@ TRUST = ("Trusted: Go type checker and go/ssa (x/tools v0.29.0), CHA/VTA call gr
 
 # id -> (technique, level text, design ref)   -- only properties whose check exists are listed here
 CLAIMS = {
+    "C01": ("finite-domain range analysis of solver.Status over go/ssa with branch refinement at Solve's returns; store-implies-watch and drop-implies-unwatch pairing on the clause database; freshness of the published model",
+            "Decides on every path that Solve answers only Sat or Unsat, that every clause stored is watched and every clause dropped is unwatched by the same function, and that the published model is a fresh copy. Necessary conditions; correctness of verdict and model is not decided.",
+            "DESIGN.md section 5, C01"),
     "C10": ("ordering (dominance) analysis over go/ssa of the round protocol of Solver.Assume: retraction before installation, status reset before propagation, binding+flag+trail triple per literal, propagate(0,1) on every path; constant-argument check of every call of the level-retraction function",
             "Decides the round protocol of Assume on every path and that top-level bindings are never retracted wholesale. Necessary conditions; correctness of each round's answer is not decided. One known finding (D7) is reported as KNOWN-FINDING.",
             "DESIGN.md section 5, C10"),
